@@ -870,7 +870,14 @@ pub fn conc_handler(seed: u64, mode: u64) -> ConcCase {
     let rel = "r".to_string();
     let h64 = |a: i64, b: i64| -> T { vec![V::I64(a), V::I64(b)] };
     let base: Vec<T> = (1..=4).map(|i| h64(i, i % 3)).collect();
-    let mut setup = vec![COp::Insert { kg: kg.clone(), rel: rel.clone(), tuples: base.clone() }];
+    // further tuples sharing X with the base ones, so that `Y := c` updates can collide with stored tuples
+    let mut stored = base.clone();
+    for i in 1..=3 {
+        if rw.chance(1, 2) {
+            stored.push(h64(i, (i + 1) % 3));
+        }
+    }
+    let mut setup = vec![COp::Insert { kg: kg.clone(), rel: rel.clone(), tuples: stored }];
     if rw.chance(1, 3) {
         setup.push(COp::RegisterRule { kg: kg.clone(), text: "d(X, Y) <- r(X, Y)".into() });
     }
@@ -910,7 +917,15 @@ pub fn conc_handler(seed: u64, mode: u64) -> ConcCase {
                     ops.push(COp::Delete { kg: kg.clone(), rel: rel.clone(), tuples });
                 }
                 6..=7 if conditional_here => ops.push(COp::CondDelete { kg: kg.clone(), rel: rel.clone(), col: 0, cmp: rw.pick(cmps).to_string(), k: rw.range(2, 3) as i64 }),
-                8..=9 if conditional_here => ops.push(COp::Update { kg: kg.clone(), rel: rel.clone(), col: 0, cmp: rw.pick(cmps).to_string(), k: rw.range(2, 3) as i64, add: 10 }),
+                8..=9 if conditional_here => {
+                    // Y := Y + 10, or Y := a constant that other stored tuples already carry (the insert half may be all duplicates)
+                    let set_to = if rw.chance(1, 2) { Some(rw.range(0, 2) as i64) } else { None };
+                    ops.push(COp::Update { kg: kg.clone(), rel: rel.clone(), col: 0, cmp: rw.pick(cmps).to_string(), k: rw.range(2, 3) as i64, add: 10, set_to });
+                    if rw.chance(1, 2) {
+                        // read-your-writes right after the statement
+                        ops.push(COp::Query { kg: kg.clone(), rel: rel.clone(), arity: 2 });
+                    }
+                }
                 10 => ops.push(COp::RegisterRule { kg: kg.clone(), text: "d(X, Y) <- r(X, Y)".into() }),
                 _ => ops.push(COp::Query { kg: kg.clone(), rel: rel.clone(), arity: 2 }),
             }
@@ -990,11 +1005,22 @@ pub fn c32_case(seed: u64) -> HCase {
                 let (col, cmp, k) = gen_cmp(&mut rw);
                 let var = if col == 0 { "X" } else { "Y" };
                 let add = rw.range(1, 2) as i64;
-                ops.push(HOp::Program {
-                    kg: kg.clone(),
-                    text: format!("-{rel}(X, Y), +{rel}(X, Z) <- {rel}(X, Y), {var} {cmp} {k}, Z = Y + {add}"),
-                    effect: Effect::Update { rel, col, cmp, k, add },
-                });
+                if rw.chance(1, 3) {
+                    // Y := constant: the inserted tuples may all be stored already; then read the relation back
+                    let c = rw.range(0, 2) as i64;
+                    ops.push(HOp::Program {
+                        kg: kg.clone(),
+                        text: format!("-{rel}(X, Y), +{rel}(X, {c}) <- {rel}(X, Y), {var} {cmp} {k}"),
+                        effect: Effect::Update { rel: rel.clone(), col, cmp, k, add, set_to: Some(c) },
+                    });
+                    ops.push(HOp::Query { kg: kg.clone(), text: format!("?{rel}(X, Y)") });
+                } else {
+                    ops.push(HOp::Program {
+                        kg: kg.clone(),
+                        text: format!("-{rel}(X, Y), +{rel}(X, Z) <- {rel}(X, Y), {var} {cmp} {k}, Z = Y + {add}"),
+                        effect: Effect::Update { rel, col, cmp, k, add, set_to: None },
+                    });
+                }
             }
             16 => ops.push(HOp::SaveAll),
             17 => ops.push(HOp::CompactAll),
@@ -1483,11 +1509,22 @@ pub fn c19a_case(seed: u64) -> HCase {
                 let (col, cmp, k) = gen_cmp(&mut rw);
                 let var = if col == 0 { "X" } else { "Y" };
                 let add = rw.range(1, 2) as i64;
-                ops.push(HOp::Program {
-                    kg: kg.clone(),
-                    text: format!("-{rel}(X, Y), +{rel}(X, Z) <- {rel}(X, Y), {var} {cmp} {k}, Z = Y + {add}"),
-                    effect: Effect::Update { rel, col, cmp, k, add },
-                });
+                if rw.chance(1, 3) {
+                    // Y := constant: the inserted tuples may all be stored already; then read the relation back
+                    let c = rw.range(0, 2) as i64;
+                    ops.push(HOp::Program {
+                        kg: kg.clone(),
+                        text: format!("-{rel}(X, Y), +{rel}(X, {c}) <- {rel}(X, Y), {var} {cmp} {k}"),
+                        effect: Effect::Update { rel: rel.clone(), col, cmp, k, add, set_to: Some(c) },
+                    });
+                    ops.push(HOp::Query { kg: kg.clone(), text: format!("?{rel}(X, Y)") });
+                } else {
+                    ops.push(HOp::Program {
+                        kg: kg.clone(),
+                        text: format!("-{rel}(X, Y), +{rel}(X, Z) <- {rel}(X, Y), {var} {cmp} {k}, Z = Y + {add}"),
+                        effect: Effect::Update { rel, col, cmp, k, add, set_to: None },
+                    });
+                }
             }
             15 => {
                 let k = *rw.pick(&[33usize, 64, 70]);
@@ -1656,8 +1693,9 @@ pub fn lsh_case(seed: u64) -> LCase {
                 15 => ops.push(LOp::BucketDistI8 { v: vi, table, hp }),
                 16 => ops.push(LOp::MultiProbeI8 { v: vi, table, hp, k: rw.range(1, 5) as usize }),
                 17 => ops.push(LOp::MultiProbe { v, table, hp, k: rw.range(1, 5) as usize }),
-                18 => ops.push(LOp::Prewarm { table, hp: *rw.pick(&[4usize, 8, 16, 24]), dim: *rw.pick(&dims) }),
-                _ => ops.push(LOp::Bucket { v, table, hp: *rw.pick(&[1usize, 2, 24]) }),
+                18 => ops.push(LOp::Prewarm { table, hp: *rw.pick(&[4usize, 8, 16, 24, 62, 63, 64, 70]), dim: *rw.pick(&dims) }),
+                // hyperplane counts at and beyond the 62-bit limit of a bucket
+                _ => ops.push(LOp::Bucket { v, table, hp: *rw.pick(&[1usize, 2, 24, 61, 62, 63, 64, 70]) }),
             }
         }
         threads.push(ops);
